@@ -209,9 +209,88 @@ def guard_case(draw):
 
 
 @st.composite
+def subq_case(draw):
+    """Targeted shape: one table filtered by a subquery predicate whose subquery is grouped / distinct / aggregated / correlated.
+    unnest_subqueries turns these into joins, and a join multiplies outer rows unless the subquery yields each value once:
+    every guard of that rule (grouped by more than it projects, DISTINCT, aggregate without key, NOT IN, correlation) sits here."""
+    q = queries.Q(draw, "optimizer", 1)
+    t1 = draw(st.sampled_from(list(queries.SCHEMA)))
+    t2 = draw(st.sampled_from(list(queries.SCHEMA)))
+    scope = [("x1", queries.SCHEMA[t1])]
+    inner = [("x2", queries.SCHEMA[t2])]
+    oc = q.col(scope, "int")
+    ic = q.col(inner, "int")
+    others = [f"x2.{c}" for c, _ in queries.SCHEMA[t2] if f"x2.{c}" != ic]
+    shape = draw(st.sampled_from(("group-more", "group-more", "group-same", "group-other-agg", "distinct", "plain", "corr", "corr-agg", "exists", "scalar-corr-count")))
+    where_in = f" WHERE {q.bool_expr(inner, 0, False)}" if draw(st.integers(0, 2)) == 0 else ""
+    corr = f"x2.{queries.SCHEMA[t2][1][0]} {draw(st.sampled_from(('=', '=', '<', '<>')))} {q.col(scope, 'int')}"
+    neg = "NOT " if draw(st.integers(0, 3)) == 0 else ""
+    op = draw(st.sampled_from(("IN", "IN", "= ANY", "> ANY", "< ANY")))
+    if op != "IN":
+        neg = ""
+    if shape == "group-more":
+        sub = f"SELECT {ic} FROM {t2} AS x2{where_in} GROUP BY {ic}, {draw(st.sampled_from(others))}"
+    elif shape == "group-same":
+        sub = f"SELECT {ic} FROM {t2} AS x2{where_in} GROUP BY {ic}"
+    elif shape == "group-other-agg":
+        sub = f"SELECT {draw(st.sampled_from(('MAX', 'MIN', 'COUNT', 'SUM')))}({ic}) FROM {t2} AS x2{where_in} GROUP BY {draw(st.sampled_from(others))}"
+    elif shape == "distinct":
+        sub = f"SELECT DISTINCT {ic} FROM {t2} AS x2{where_in}"
+    elif shape == "plain":
+        sub = f"SELECT {ic} FROM {t2} AS x2{where_in}"
+    elif shape == "corr":
+        sub = f"SELECT {ic} FROM {t2} AS x2 WHERE {corr}"
+    elif shape == "corr-agg":
+        sub = f"SELECT {draw(st.sampled_from(('MAX', 'MIN', 'COUNT', 'SUM')))}({ic}) FROM {t2} AS x2 WHERE {corr}"
+    if shape == "exists":
+        pred = f"{neg}EXISTS (SELECT 1 FROM {t2} AS x2 WHERE {corr}{' AND ' + q.bool_expr(inner, 0, False) if draw(st.booleans()) else ''})"
+    elif shape == "scalar-corr-count":
+        pred = f"{oc} {draw(st.sampled_from(('=', '<', '>=', '<>')))} (SELECT {draw(st.sampled_from(('COUNT(*)', 'COUNT(' + ic + ')', 'MAX(' + ic + ')', 'SUM(' + ic + ')')))} FROM {t2} AS x2 WHERE {corr})"
+    elif shape == "corr-agg":
+        pred = f"{oc} {draw(st.sampled_from(('=', '<', '>')))} ({sub})"
+    elif op == "IN":
+        pred = f"{oc} {neg}IN ({sub})"
+    else:
+        pred = f"{oc} {op} ({sub})"
+    c0, c1 = queries.SCHEMA[t1][0][0], queries.SCHEMA[t1][1][0]
+    outer = draw(st.sampled_from(("rows", "rows", "count", "and", "or")))
+    if outer == "count":
+        sql = f"SELECT COUNT(*) AS o0, SUM(x1.{c1}) AS o1 FROM {t1} AS x1 WHERE {pred}"
+    elif outer == "and":
+        sql = f"SELECT x1.{c0} AS o0, x1.{c1} AS o1 FROM {t1} AS x1 WHERE {pred} AND {q.bool_expr(scope, 0, False)}"
+    elif outer == "or":
+        sql = f"SELECT x1.{c0} AS o0, x1.{c1} AS o1 FROM {t1} AS x1 WHERE {pred} OR {q.bool_expr(scope, 0, False)}"
+    else:
+        sql = f"SELECT x1.{c0} AS o0, x1.{c1} AS o1 FROM {t1} AS x1 WHERE {pred}"
+    feats = {f"subq:{shape}", f"subq-outer:{outer}", "subquery"} | ({"subq:negated"} if neg else set()) | q.f
+    # rows that make multiplicity visible: an outer row whose compared value occurs in two inner rows with different companions
+    tabs = draw(queries.tables())
+    if draw(st.integers(0, 3)) > 0:
+        oi = [c for c, _ in queries.SCHEMA[t1]].index(oc.split(".")[1])
+        ii = [c for c, _ in queries.SCHEMA[t2]].index(ic.split(".")[1])
+        v = draw(st.sampled_from((0, 1, 2, 3)))
+        if t1 == t2:
+            ii = oi
+        orow = [draw(st.sampled_from(queries.INT_VALUES if ty == "int" else queries.TEXT_VALUES)) for _, ty in queries.SCHEMA[t1]]
+        orow[oi] = v
+        tabs[t1] = tabs[t1] + [orow]
+        for k in range(2):
+            r = [(k + 1 if ty == "int" else "ab"[k]) for _, ty in queries.SCHEMA[t2]]
+            r[ii] = v
+            tabs[t2] = tabs[t2] + [r]
+        feats.add("subq:inner-repeats-key")
+    return {"sql": sql, "tables": tabs, "features": sorted(feats), "ordered": False, "ncols": 2, "types": ["int", "int"]}
+
+
+@st.composite
 def cases(draw, depth, prefix_rate):
-    if draw(st.integers(0, 9)) < 3:
+    k = draw(st.integers(0, 9))
+    if k < 3:
         c = draw(guard_case())
+        c["prefixes"] = draw(st.integers(0, prefix_rate - 1)) == 0
+        return c
+    if k < 5:
+        c = draw(subq_case())
         c["prefixes"] = draw(st.integers(0, prefix_rate - 1)) == 0
         return c
     c = draw(queries.case("optimizer", depth))
